@@ -1,5 +1,6 @@
 import SwcVerif.Props.C19
 import SwcVerif.Props.C19Gen
+import SwcVerif.Props.C19Front
 #print axioms C19.getIdx_spec
 #print axioms C19.step_len
 #print axioms C19.load_at_most_once
@@ -22,3 +23,11 @@ import SwcVerif.Props.C19Gen
 #print axioms C19.generated_chain_getitem
 #print axioms C19.genGets_refines
 #print axioms C19.generated_load_at_most_once
+#print axioms RefinePopFront.pop_len_refines
+#print axioms RefinePopFront.pop_getitem_int_refines
+#print axioms RefinePopFront.pop_init_refines
+#print axioms RefinePopFront.nestl_getitem_refines
+#print axioms RefinePopFront.pop_getitem_slice_refines
+#print axioms C19.generated_pop_getitem
+#print axioms C19.frontStep_inv
+#print axioms C19.generated_front_load_at_most_once
